@@ -26,7 +26,7 @@ significant decimal digits, `±N·10^(X-P+1)` -/
 theorem toString_parses_to_rounded (prec : Nat) (neg : Bool) (a : Rat) (ha : 0 ≤ a) :
     toDouble '.' 'e' (toStringPrec prec neg a) = some (roundedValue prec neg a) := by
   unfold toStringPrec
-  rw [toDouble_value (Or.inl rfl) _ (fmtParts_wf prec neg a), fmtParts_value prec neg a (digitsOk_always prec a ha)]
+  rw [toDouble_value sane_default.1 _ (fmtParts_wf prec neg a), fmtParts_value prec neg a (digitsOk_always prec a ha)]
 
 /-- **the round trip is exact** for every number with at most `precision` significant decimal
 digits (`fitsPrec`, decidable) -/
